@@ -30,6 +30,13 @@ pub struct NameSpec {
     /// 3 the root, 4 unrelated name
     pub near: u8,
     pub rd: bool,
+    /// the route is chosen from the name alone, whatever is asked about it
+    #[serde(default = "qtype_a")]
+    pub qtype: u16,
+}
+
+fn qtype_a() -> u16 {
+    1
 }
 
 #[derive(Clone, Debug, Serialize, Deserialize, PartialEq)]
@@ -63,14 +70,22 @@ pub fn route_case_strategy(max_names: usize) -> impl Strategy<Value = RouteCase>
                 any::<u32>(),
                 prop_oneof![10 => Just(0u8), 2 => Just(1u8), 1 => Just(2u8), 1 => Just(3u8), 1 => Just(4u8)],
                 proptest::bool::weighted(0.85),
+                // A mostly; the types that resolvers treat specially (DS lives at the parent side
+                // of a cut, NS/SOA at the apex, PTR, ...) and any other (not ANY: refused by type)
+                prop_oneof![
+                    6 => Just(1u16), 1 => Just(28u16), 2 => Just(43u16), 1 => Just(2u16), 1 => Just(6u16), 1 => Just(48u16),
+                    1 => Just(12u16), 1 => Just(5u16), 1 => Just(33u16), 1 => Just(65u16), 1 => Just(16u16),
+                    2 => (1u16..=254).prop_filter("not OPT", |t| *t != 41),
+                ],
             )
-                .prop_map(|(route, suffix, extra, case_mask, near, rd)| NameSpec {
+                .prop_map(|(route, suffix, extra, case_mask, near, rd, qtype)| NameSpec {
                     route,
                     suffix,
                     extra,
                     case_mask,
                     near,
                     rd,
+                    qtype,
                 }),
             4..=max_names,
         ),
@@ -264,7 +279,7 @@ impl C15Routes {
                 .map(|(i, n)| {
                     s.spawn(move || {
                         let name = build_name(c, n);
-                        let mut q = dns::query(0x3000 + i as u16, &name, 1, 1, n.rd, None);
+                        let mut q = dns::query(0x3000 + i as u16, &name, n.qtype, 1, n.rd, None);
                         q.header.rd = n.rd;
                         let bytes = dns::encode(&q, dns::Compress::Off);
                         // no-RD queries expect REFUSED, which only TCP shows reliably
@@ -301,7 +316,7 @@ impl C15Routes {
             let want = reference(c, name);
             let q = dns::Question {
                 name: name.clone(),
-                qtype: 1,
+                qtype: n.qtype,
                 qclass: 1,
             };
             let key = qkey(&q);
